@@ -3128,7 +3128,8 @@ skip_fasta(ESL_SQFILE *sqfp, ESL_SQ *sq)
   /* skip past end of line */
   while (status == eslOK && (c == '\n' || c == '\r')) status = nextchar(sqfp, &c);
 
-  if (status != eslOK) ESL_FAIL(eslEFORMAT, ascii->errbuf, "Premature EOF in parsing FASTA name/description line");
+  /* Edge case, as in header_fasta(): if the last sequence in the file is L=0, we are EOF now, not OK; we still parsed the header line */
+  if (status != eslOK && status != eslEOF) ESL_FAIL(eslEFORMAT, ascii->errbuf, "Premature EOF in parsing FASTA name/description line");
   sq->doff = ascii->boff + ascii->bpos;
 
   ascii->linenumber++;
